@@ -643,7 +643,16 @@ func nilWalk(fn *ssa.Function, from map[Edge]bool, after ssa.Instruction, cut ma
 				continue
 			}
 			if v, ok := in.(ssa.Value); ok {
-				delete(f, v) // re-definition invalidates a stale fact (loops)
+				keep := false
+				if ex, isEx := in.(*ssa.Extract); isEx && after != nil && it.start > 0 && len(it.stack) == 0 {
+					// the assumed fact about a result of the very call the walk starts after
+					if av, isV := after.(ssa.Value); isV && ex.Tuple == av {
+						_, keep = walkInitFacts[ex]
+					}
+				}
+				if !keep {
+					delete(f, v) // re-definition invalidates a stale fact (loops)
+				}
 			}
 			if ex, ok := in.(*ssa.Extract); ok {
 				// results of a call that was entered: what the path taken inside returned
